@@ -150,6 +150,15 @@ func c04RunOpt(e *Env, tr string, faults bool, audit bool) {
 			return
 		}
 		x := xfers[n]
+		if e.Pool.Enabled {
+			e.Pool.Hold(r.Message, fmt.Sprintf("request n=%d inside its handler", n))
+			snap := Snapshot(r.Message)
+			e.Pool.CheckHandover(snap, "request handed to a handler")
+			defer func() {
+				e.Pool.CheckHeld(r.Message, snap)
+				e.Pool.Unhold(r.Message)
+			}()
+		}
 		var body []byte
 		if r.Body() != nil {
 			body, _ = r.ReadBody()
